@@ -17,6 +17,7 @@ import (
 	"crypto/sha256"
 	"fmt"
 	"go/ast"
+	"go/constant"
 	"go/parser"
 	"go/token"
 	"os"
@@ -42,10 +43,67 @@ type fnSig struct {
 }
 
 type tr struct {
-	fset  *token.FileSet
-	sigs  map[string]*fnSig
-	cur   *fnSig
-	fresh int
+	fset   *token.FileSet
+	sigs   map[string]*fnSig
+	cur    *fnSig
+	fresh  int
+	consts map[string]constant.Value // package-level integer constants
+}
+
+// constVal evaluates an integer constant expression over literals and package-level constants.
+func (t *tr) constVal(e ast.Expr) (constant.Value, bool) {
+	switch x := e.(type) {
+	case *ast.BasicLit:
+		if x.Kind != token.INT {
+			return nil, false
+		}
+		v := constant.MakeFromLiteral(x.Value, token.INT, 0)
+		return v, v.Kind() == constant.Int
+	case *ast.Ident:
+		v, ok := t.consts[x.Name]
+		return v, ok
+	case *ast.ParenExpr:
+		return t.constVal(x.X)
+	case *ast.BinaryExpr:
+		a, ok1 := t.constVal(x.X)
+		b, ok2 := t.constVal(x.Y)
+		if !ok1 || !ok2 {
+			return nil, false
+		}
+		switch x.Op {
+		case token.SHL, token.SHR:
+			n, ok := constant.Uint64Val(b)
+			if !ok || n > 200 {
+				return nil, false
+			}
+			return constant.Shift(a, x.Op, uint(n)), true
+		case token.ADD, token.SUB, token.MUL, token.AND, token.OR:
+			return constant.BinaryOp(a, x.Op, b), true
+		}
+	}
+	return nil, false
+}
+
+// namedConst: a constant expression that mentions a package-level constant (it is emitted as its value;
+// expressions over literals only keep their shape, as before)
+func (t *tr) namedConst(e ast.Expr) bool {
+	if _, ok := t.constVal(e); !ok {
+		return false
+	}
+	found := false
+	ast.Inspect(e, func(n ast.Node) bool {
+		if id, ok := n.(*ast.Ident); ok {
+			if _, ok := t.consts[id.Name]; ok {
+				found = true
+			}
+		}
+		return true
+	})
+	return found
+}
+
+func (t *tr) isConstExpr(e ast.Expr) bool {
+	return untypedConst(e) || t.namedConst(e)
 }
 
 func die(fset *token.FileSet, n ast.Node, msg string) {
@@ -97,6 +155,12 @@ func (t *tr) tmp() string {
 // typeOf infers the sort of an expression (want is the sort expected by the context, used for
 // untyped constants).
 func (t *tr) typeOf(e ast.Expr, en env, want ty) ty {
+	if t.namedConst(e) {
+		if want == tUnknown {
+			return tInt
+		}
+		return want
+	}
 	switch x := e.(type) {
 	case *ast.BasicLit:
 		if want == tUnknown {
@@ -120,7 +184,7 @@ func (t *tr) typeOf(e ast.Expr, en env, want ty) ty {
 		case token.SHL, token.SHR:
 			return t.typeOf(x.X, en, want)
 		}
-		if untypedConst(x.X) {
+		if t.isConstExpr(x.X) {
 			return t.typeOf(x.Y, en, want)
 		}
 		return t.typeOf(x.X, en, tUnknown)
@@ -154,6 +218,19 @@ func (t *tr) typeOf(e ast.Expr, en env, want ty) ty {
 
 // expr translates e in continuation-passing style: k receives a Lean term for the (pure) value.
 func (t *tr) expr(e ast.Expr, en env, want ty, k func(string) string) string {
+	if t.namedConst(e) {
+		v, _ := t.constVal(e)
+		if constant.Sign(v) < 0 {
+			if want != tInt {
+				die(t.fset, e, "negative constant in an unsigned context")
+			}
+			return k("(-(" + constant.UnaryOp(token.SUB, v, 0).ExactString() + " : Int))")
+		}
+		if want == tInt {
+			return k("(" + v.ExactString() + " : Int)")
+		}
+		return k("(" + v.ExactString() + " : Nat)")
+	}
 	switch x := e.(type) {
 	case *ast.BasicLit:
 		if x.Kind != token.INT {
@@ -182,7 +259,7 @@ func (t *tr) expr(e ast.Expr, en env, want ty, k func(string) string) string {
 		lt := t.typeOf(e, en, want)
 		switch x.Op {
 		case token.SHL, token.SHR:
-			if untypedConst(x.X) && want != tUnknown {
+			if t.isConstExpr(x.X) && want != tUnknown {
 				lt = want
 			}
 			return t.expr(x.X, en, lt, func(a string) string {
@@ -377,7 +454,7 @@ func (t *tr) cond(e ast.Expr, en env, k func(string) string) string {
 		die(t.fset, e, "condition operator "+b.Op.String())
 	}
 	var lt ty
-	if untypedConst(b.X) {
+	if t.isConstExpr(b.X) {
 		lt = t.typeOf(b.Y, en, tUnknown)
 	} else {
 		lt = t.typeOf(b.X, en, tUnknown)
@@ -568,7 +645,27 @@ func main() {
 		fmt.Fprintln(os.Stderr, err)
 		os.Exit(1)
 	}
-	t := &tr{fset: fset, sigs: map[string]*fnSig{}}
+	t := &tr{fset: fset, sigs: map[string]*fnSig{}, consts: map[string]constant.Value{}}
+	// package-level integer constants (in source order, so that one may refer to an earlier one)
+	for _, d := range f.Decls {
+		gd, ok := d.(*ast.GenDecl)
+		if !ok || gd.Tok != token.CONST {
+			continue
+		}
+		for _, sp := range gd.Specs {
+			vs := sp.(*ast.ValueSpec)
+			if len(vs.Values) != len(vs.Names) {
+				die(fset, vs, "constant without a value of its own (iota / repeated)")
+			}
+			for i, n := range vs.Names {
+				v, ok := t.constVal(vs.Values[i])
+				if !ok {
+					die(fset, vs, "constant "+n.Name+" is not an integer constant expression")
+				}
+				t.consts[n.Name] = v
+			}
+		}
+	}
 	var fns []*ast.FuncDecl
 	for _, d := range f.Decls {
 		fd, ok := d.(*ast.FuncDecl)
